@@ -33,20 +33,51 @@ INFO_ADTS = ("ScmpMessage::EchoReply", "ScmpMessage::TracerouteReply", "ScmpMess
              "ScmpInformationalMessage::")
 
 
-def quote_template(o):
-    """payload_length origin must be  HEADER + min(p1, sat_sub(sat_sub(MAX, p2), HEADER))"""
+def _inline(F, t, depth=3):
+    """replace calls of small workspace helpers by their return expression (parameters substituted), so that a
+    behaviour-preserving extraction of the budget arithmetic into a helper function is seen through"""
+    if not isinstance(t, tuple) or depth <= 0:
+        return t
+    if t and t[0] == "call" and F.has_body(t[1]) and t[1].startswith("sciparse::") and not t[1].endswith("::min"):
+        hb = F.body(t[1])
+        ro = strip_sites(hb.local_origin(0))
+        if "top" not in tokens(ro) and hb.argc == len(t[2]):
+            args = [_inline(F, a, depth - 1) for a in t[2]]
+
+            def sub(x):
+                if not isinstance(x, tuple):
+                    return x
+                if x and x[0] == "param" and 1 <= x[1] <= len(args):
+                    return args[x[1] - 1]
+                return tuple(sub(y) if isinstance(y, tuple) else y for y in x)
+            return _inline(F, sub(ro), depth - 1)
+    return tuple(_inline(F, x, depth) if isinstance(x, tuple) else x for x in t)
+
+
+def _cv(t):
+    """constant value of a lit / const / constant expression node"""
+    return PN.const_eval(t)
+
+
+def quote_template(F, o):
+    """payload_length must be  H + min(p1, sat_sub(sat_sub(1232, p2), H))  with the SAME numeric H in both places
+    (constants are compared by value, helper functions are inlined)"""
+    o = _inline(F, strip_sites(o))
     if o[0] != "agg" or len(o[2]) != 1:
         return False, "not a single-field layout"
-    e = o[2][0]
+    e = PN.strip_casts(o[2][0])
     if e[0] == "field" and e[2] == "0" and e[1][0] == "bin":
         e = ("bin", e[1][1].replace("WithOverflow", ""), e[1][2], e[1][3])
     if e[0] != "bin" or e[1] != "Add":
         return False, "payload_length is not HEADER + …"
     h, m = e[2], e[3]
-    if h[0] != "const":
+    if _cv(h) is None:
         h, m = m, h
-    if h[0] != "const" or not h[1].endswith("::HEADER_SIZE_BYTES"):
-        return False, "first addend is not the layout's HEADER_SIZE_BYTES"
+    H = _cv(h)
+    if H is None:
+        return False, "no constant header addend"
+    if h[0] == "const" and not h[1].endswith("::HEADER_SIZE_BYTES"):
+        return False, "header addend is not the layout's HEADER_SIZE_BYTES"
     if m[0] != "call" or not (m[1].endswith("::min")) or len(m[2]) != 2:
         return False, "second addend is not min(..)"
     a, b = m[2]
@@ -54,11 +85,11 @@ def quote_template(o):
         a, b = b, a
     if a != ("param", 1):
         return False, "min() does not take the offending packet length"
-    if b[0] != "call" or not b[1].endswith("::saturating_sub") or b[2][1][0] != "const" or b[2][1][1] != h[1]:
-        return False, "budget is not sat_sub(.., HEADER)"
+    if b[0] != "call" or not b[1].endswith("::saturating_sub") or _cv(b[2][1]) != H:
+        return False, "budget subtracts %s, the layout's header is %s bytes" % (_cv(b[2][1]) if b[0] == "call" and len(b[2]) > 1 else "?", H)
     c = b[2][0]
-    if c[0] != "call" or not c[1].endswith("::saturating_sub") or c[2][0][0] != "const" or c[2][0][1] != MAXC or c[2][1] != ("param", 2):
-        return False, "budget is not sat_sub(SCMP_ERROR_MAX_PACKET_SIZE, header_and_extensions_size)"
+    if c[0] != "call" or not c[1].endswith("::saturating_sub") or _cv(c[2][0]) != 1232 or c[2][1] != ("param", 2):
+        return False, "budget is not sat_sub(1232, header_and_extensions_size)"
     return True, ""
 
 
@@ -74,7 +105,7 @@ def run(F, R, tier, cfg):
         b = F.body(p)
         R.fn(p)
         o = strip_sites(b.local_origin(0))
-        ok, why = quote_template(o)
+        ok, why = quote_template(F, o)
         R.ob("SIB-quote", "%s == HEADER + min(len, sat_sub(sat_sub(1232, hdr), HEADER))" % short(p), ok, True,
              {"rule": "SIB-quote", "fn": p, "origin": fmt(b.local_origin(0), 300), "holds": ok})
         if not ok:
